@@ -268,12 +268,13 @@ class Image(Traversable):
             if marked[name]:
                 continue
 
-            match = self._STEREO_FILENAME.match(name)
+            match = self._split_stereo_name(name)
             if match:
-                alternate_ending = "R" if match.group(3) == "L" else "L"
+                stem, separator, side = match
+                alternate_ending = "R" if side == "L" else "L"
                 alternate_name = "".join((
-                    match.group(1), 
-                    match.group(2), 
+                    stem, 
+                    separator, 
                     alternate_ending
                 ))
                 if alternate_name in sample_dict.keys():
@@ -288,11 +289,11 @@ class Image(Traversable):
                     # another merged pair): pick a free counted name
                     taken_names = set(sample_dict.keys())
                     taken_names.update(s.export_name for s in result)
-                    new_name = match.group(1)
+                    new_name = stem
                     count = 2
                     while new_name in taken_names:
                         new_name = self._add_count_to_name(
-                            match.group(1), 
+                            stem, 
                             count
                         )
                         count += 1
@@ -335,17 +336,37 @@ class Image(Traversable):
         return export_name
 
 
-    _STEREO_FILENAME = re.compile(r"(.*?)([\s-]+)(L|R)\s*$")
+    @staticmethod
+    def _split_stereo_name(name: str):
+        """
+        Splits a name of the form <stem><blanks/hyphens><L|R><blanks> into
+        (stem, separator, side); None for any other name. Same result as 
+        matching (.*?)([\\s-]+)(L|R)\\s*$, but scanned from the end: the
+        regular expression needs quadratic time on a long run of separators.
+        """
+        body = name.rstrip()
+        if len(body) < 2 or body[-1] not in ("L", "R"):
+            return None
+        end = len(body) - 1
+        start = end
+        while start > 0 \
+                and (body[start - 1].isspace() or body[start - 1] == "-"):
+            start -= 1
+        if start == end or "\n" in body[:start]:
+            return None
+        return body[:start], body[start:end], body[end]
+
+
     def _add_count_to_name(self, name: str, count: int) -> str:
         count_str = "(" + str(count) + ")"
         delim = " "
         tokens = [name, count_str]
-        match = self._STEREO_FILENAME.match(name)
+        match = self._split_stereo_name(name)
         if match:
             tokens = [
-                match.group(1),
+                match[0],
                 count_str,
-                match.group(3)
+                match[2]
             ]
         new_name = delim.join(tokens)
         return new_name
